@@ -5,26 +5,29 @@ Open Scope N_scope.
 From V.C11 Require Import Properties.
 Check (C11_alternation :
   forall (c : cfg) (ops : list op),
-    forallb prompt_op ops = true ->
     exists h, grammar (fun _ => false) (events (fst (run c init ops))) = Some h).
-Check (C11_alternation_refuted :
-  exists (c : cfg) (ops : list op),
-    grammar (fun _ => false) (events (fst (run c init ops))) = None).
+Check (C11_alternation_before_fix_refuted :
+  Before.events (fst (Before.run cfg_w_before Before.init w_slow_close_before)) =
+    [Before.UOpened 0 Before.DOut; Before.UValidate 0; Before.UOpened 0 Before.DIn; Before.UClosed 0; Before.UClosed 0] /\
+  Before.grammar (fun _ => false) (Before.events (fst (Before.run cfg_w_before Before.init w_slow_close_before))) = None /\
+  events (fst (run cfg_w init w_slow_close)) = [UOpened 0 DOut; UClosed 0; UValidate 0; UOpened 0 DIn]).
+Check (C11_user_view_is_protocol_view :
+  forall (c : cfg) (s : st), reachable c s ->
+    (forall p, hopen s p = is_open (ps s p)) /\ (forall p k, ps s p = Some (Open k) -> hsink s p = Some k)).
 Check (C11_opened_needs_accepted_inbound :
   forall (c : cfg) (s : st) (o : op) (s' : st) (ev : list uev) (calls : list call) (p : peer) (d : dir),
     step c s o = Some (s', ev, calls) -> In (UOpened p d) ev -> accepted_in (ps s p) d).
 Check (C11_closed_on_disconnect :
-  forall (c : cfg) (ops : list op) (x : st * list uev * list call) (p : peer) (k : N)
-         (s' : st) (ev : list uev) (calls : list call),
-    forallb prompt_op ops = true -> In x (fst (run c init ops)) ->
-    conn (fst (fst x)) p = true -> ps (fst (fst x)) p = Some (Open k) ->
-    step c (fst (fst x)) (ConnClosed p) = Some (s', ev, calls) -> In (UClosed p) ev).
+  forall (c : cfg) (s : st) (p : peer) (k : N) (s' : st) (ev : list uev) (calls : list call),
+    reachable c s -> conn s p = true -> ps s p = Some (Open k) ->
+    step c s (ConnClosed p) = Some (s', ev, calls) -> In (UClosed p) ev).
 Check (C11_closed_on_user_close :
-  forall (c : cfg) (ops : list op) (x : st * list uev * list call) (p : peer) (k : N)
-         (s' : st) (ev : list uev) (calls : list call),
-    forallb prompt_op ops = true -> In x (fst (run c init ops)) ->
-    ps (fst (fst x)) p = Some (Open k) ->
-    step c (fst (fst x)) (CmdClose p) = Some (s', ev, calls) -> In (UClosed p) ev).
+  forall (c : cfg) (s : st) (p : peer) (k : N) (s' : st) (ev : list uev) (calls : list call),
+    reachable c s -> ps s p = Some (Open k) ->
+    step c s (CmdClose p) = Some (s', ev, calls) -> In (UClosed p) ev).
+Check (C11_delivered_close_kills_nothing :
+  forall (c : cfg) (s : st) (o : op) (s1 : st) (ev : list uev) (cl : list call) (s2 : st) (dr : list peer) (ks : list N),
+    reachable c s -> main_handler c s o = Some (s1, ev, cl) -> drain s1 ev = (s2, dr, ks) -> ks = []).
 Check (C11_no_stuck :
   forall (c : cfg) (ops : list op), snd (run c init ops) = true).
 Check (C11_no_stuck_feasible :
@@ -121,10 +124,12 @@ Check (C11_event_channel_no_loss :
 Check (C11_event_channel_step :
   forall (c : cfg) (cap : nat) (l : lst) (g : lop) (l' : lst) (ev : list uev) (cl : list call),
     lstep c cap l g = Some (l', ev, cl) ->
-    ltaken l g ++ lq l' = lq l ++ lemitted c cap l g /\ (ltaken l g <> [] -> ev = ltaken l g)).
+    ltaken cap l g ++ lq l' = lq l ++ lemitted c cap l g /\
+    (snd (fst (poll_events cap (ls l) (lq l))) <> None \/ g <> LPoll -> ev = delivered (ls l) (ltaken cap l g))).
 Check (C11_poll_delivers_oldest :
-  forall (c : cfg) (cap : nat) (l : lst) (e : uev) (rest : list uev),
-    lq l = e :: rest -> exists l' cl, lstep c cap l LPoll = Some (l', [e], cl)).
+  forall (c : cfg) (cap : nat) (l : lst) (dd : list uev) (e : uev) (rest : list uev),
+    poll_events cap (ls l) (lq l) = (dd, Some e, rest) ->
+    exists l' cl, lstep c cap l LPoll = Some (l', delivered (ls l) [e], cl)).
 Check (C11_capacity_only_delays :
   forall (c : cfg) (cap1 cap2 : nat) (gs : list lop),
     never_blocked c cap1 linit gs = true -> never_blocked c cap2 linit gs = true ->
@@ -140,4 +145,5 @@ Check (C11_lazy_queue_lifecycle_only :
 Check (C11_lazy_notification_in_its_period :
   forall (c : cfg) (cap : nat) (l l' : lst) (ev : list uev) (cl : list call) (p : peer),
     Forall not_notif (lq l) -> lstep c cap l LPoll = Some (l', ev, cl) -> In (UNotif p) ev ->
-    lq l = [] /\ exists k, In (p, k) (lnf l) /\ hopen (ls l) p = true /\ hsink (ls l) p = Some k).
+    snd (fst (poll_events cap (ls l) (lq l))) = None /\
+    exists k, In (p, k) (lnf l) /\ hopen (ls l) p = true /\ hsink (ls l) p = Some k).
